@@ -9,6 +9,7 @@ CONSTANTS
     FIX_BODY = TRUE
     FIX_TLS13 = TRUE
     FIX_NOUSER = TRUE
+    FIX_XFF = TRUE
 INVARIANTS TypeOK
 PROPERTY Completes
 CHECK_DEADLOCK FALSE
